@@ -181,7 +181,7 @@ func c02Run(c *fw.Ctx) error {
 	paths, vals, funcs := c02Paths(), c02Values(), c02Funcs()
 	chainSources := c02ChainSrc()
 	operands := []*refsem.E{refsem.Lit(val.IntV(1)), refsem.Lit(fromJSONText("[2]")), refsem.Lit(fromJSONText(`{"c": 2}`)), refsem.Key("b")}
-	c.Res.Bound = fmt.Sprintf("%d documents x %d paths x (%d values + %d update functions + 3 compound operators x %d operands) + put-get/put-put/get-put law instances + bind-assign-assign-edit chains (4 sources x 20 path pairs x 2 tails x 2 places) + streams: `.[] | (p op e)` for 3 paths x 4 operands x 5 forms on all pairs (and x,y,x triples) of 6 maps + create-below-then-assign (4 paths x 3 tails x 7 values)", len(docs), len(paths), len(vals), len(funcs), len(operands))
+	c.Res.Bound = fmt.Sprintf("%d documents x %d paths x (%d values + %d update functions + 3 compound operators x %d operands) + put-get/put-put/get-put law instances + bind-assign-assign-edit chains (4 sources x 20 path pairs x 2 tails x 2 places) + streams: `.[] | (p op e)` for 3 paths x 4 operands x 5 forms on all pairs (and x,y,x triples) of 6 maps + create-below-then-assign and assign-then-create-below (4 paths x 3 tails x 8 values)", len(docs), len(paths), len(vals), len(funcs), len(operands))
 	var idx int64
 	run := func(cs c02Case, order int64) {
 		kind, detail, defined := c02Check(cs)
@@ -253,9 +253,13 @@ func c02Run(c *fw.Ctx) error {
 			}
 			for pi, p := range []*refsem.E{refsem.Key("a"), refsem.Key("c"), refsem.Idx(0), refsem.Idx(1)} {
 				for ti, tail := range []*refsem.E{refsem.Key("b"), refsem.Idx(0), refsem.Bin("pipe", refsem.Key("b"), refsem.Key("c"))} {
-					for vi, v := range []*refsem.E{lit(`"5"`), lit(`"true"`), lit(`"null"`), lit(`"x"`), lit(`5`), lit(`[]`), lit(`{"k": "1"}`)} {
+					for vi, v := range []*refsem.E{lit(`"5"`), lit(`"true"`), lit(`"null"`), lit(`"x"`), lit(`5`), lit(`[]`), lit(`{"k": "1"}`), lit(`null`)} {
 						e := refsem.Bin("pipe", refsem.Bin("assign", refsem.Bin("pipe", p, tail), refsem.Lit(val.IntV(1))), refsem.Bin("assign", p, v))
 						run(c02Case{Law: "ref", Expr: e, Doc: d.JSON()}, 6e6+int64(d.Size())*1e3+int64(pi*100+ti*10+vi))
+						// and the other way round: a container is overwritten by v, then a path below it is created again
+						// (nothing of what the container held may come back)
+						e2 := refsem.Bin("pipe", refsem.Bin("assign", p, v), refsem.Bin("assign", refsem.Bin("pipe", p, tail), refsem.Lit(val.IntV(5))))
+						run(c02Case{Law: "ref", Expr: e2, Doc: d.JSON()}, 6e6+int64(d.Size())*1e3+int64(pi*100+ti*10+vi)+1)
 					}
 				}
 			}
